@@ -208,22 +208,44 @@ theorem C18_resume_equiv (cfg : Cfg) (horder : SaveLast cfg) (hcarry : cfg.carry
   | te => rw [hk] at hs; exact te_resume_equiv cfg horder hcarry j sn hs
   | gs => rw [hk] at hs; exact gs_resume_equiv cfg horder hcarry (hgs hk) j sn hs
 
-/-- the configuration of the source: priorities 0 and -100, repaired resume data -/
-def cfgTE : Cfg := { kind := .te, n := 4, maxSweeps := 0, minSweeps := 0, conv := fun _ => false,
-  guardEmpty := true, measureInitial := true, measureAtCheckpoints := false, prioMeasure := 0,
-  prioSave := -100, carryErr := true, stepErr := fun i => 2 ^ i }
+instance (cfg : Cfg) : Decidable (SaveLast cfg) := by unfold SaveLast; exact inferInstance
 
-def cfgGS : Cfg := { kind := .gs, n := 0, maxSweeps := 4, minSweeps := 1, conv := fun _ => false,
-  guardEmpty := true, measureInitial := true, measureAtCheckpoints := true, prioMeasure := 0,
-  prioSave := -100, carryErr := true, stepErr := fun _ => 0 }
+/-- the configuration of the source: priorities 0 and -100, repaired resume data -/
+def cfgTE : Cfg where
+  kind := .te
+  n := 4
+  maxSweeps := 0
+  minSweeps := 0
+  conv := fun _ => false
+  guardEmpty := true
+  measureInitial := true
+  measureAtCheckpoints := false
+  prioMeasure := 0
+  prioSave := -100
+  carryErr := true
+  stepErr := fun i => 2 ^ i
+
+def cfgGS : Cfg where
+  kind := .gs
+  n := 0
+  maxSweeps := 4
+  minSweeps := 1
+  conv := fun _ => false
+  guardEmpty := true
+  measureInitial := true
+  measureAtCheckpoints := true
+  prioMeasure := 0
+  prioSave := -100
+  carryErr := true
+  stepErr := fun _ => 0
 
 -- non-vacuity: snapshots exist at the checkpoints, and the resumed runs are the plain run
 example : (snapshotAt cfgTE 2).isSome = true ∧ resumeFrom cfgTE 2 = run cfgTE ∧ (run cfgTE).isSome = true := by
-  decide
-example : ((run cfgTE).map (fun s => s.meas.map (·.eps))) = some [0, 1, 3, 7, 15] := by decide
+  decide +kernel
+example : ((run cfgTE).map (fun s => s.meas.map (·.eps))) = some [0, 1, 3, 7, 15] := by decide +kernel
 example : (snapshotAt cfgGS 3).isSome = true ∧ resumeFrom cfgGS 3 = run cfgGS ∧ (run cfgGS).isSome = true := by
-  decide
-example : ((run cfgGS).map (fun s => s.meas.map (·.tag))) = some [0, 1, 2, 3, 4, 5] := by decide
+  decide +kernel
+example : ((run cfgGS).map (fun s => s.meas.map (·.tag))) = some [0, 1, 2, 3, 4, 5] := by decide +kernel
 
 /-- **With the priorities of the source the measurement runs before the save.** -/
 theorem C18_listener_order (cfg : Cfg) (hm : cfg.measureAtCheckpoints = true) (h0 : cfg.prioMeasure = 0)
@@ -238,10 +260,10 @@ measurements after the resume restart from 0. -/
 theorem C18_resume_trunc_err_counterexample :
     ∃ cfg j, SaveLast cfg ∧ cfg.kind = .te ∧ cfg.carryErr = false ∧ (snapshotAt cfg j).isSome = true ∧
       resumeFrom cfg j ≠ run cfg :=
-  ⟨{ cfgTE with carryErr := false }, 2, by decide⟩
+  ⟨{ cfgTE with carryErr := false }, 2, by decide +kernel⟩
 
 example : ((resumeFrom { cfgTE with carryErr := false } 2).map (fun s => s.meas.map (·.eps)))
-    = some [0, 1, 3, 4, 12] := by decide
+    = some [0, 1, 3, 4, 12] := by decide +kernel
 
 /-- **Saving before measuring loses a measurement**: with the save listener first, the file written at
 checkpoint `j` lacks the measurement of that checkpoint and the resumed run never makes it. -/
@@ -249,14 +271,147 @@ theorem C18_resume_priority_counterexample :
     ∃ cfg j, ¬ SaveLast cfg ∧ cfg.carryErr = true ∧ GsDet cfg ∧ (snapshotAt cfg j).isSome = true ∧
       resumeFrom cfg j ≠ run cfg :=
   ⟨{ cfgGS with prioSave := 0 }, 2,
-    by simp [SaveLast, cfgGS], rfl, ⟨rfl, fun _ => rfl⟩, by decide, by decide⟩
+    by simp [SaveLast, cfgGS], rfl, ⟨rfl, fun _ => rfl⟩, by decide +kernel, by decide +kernel⟩
 
 example : ((resumeFrom { cfgGS with prioSave := 0 } 2).map (fun s => s.meas.map (·.tag)))
-    = some [0, 1, 3, 4, 5] := by decide
+    = some [0, 1, 3, 4, 5] := by decide +kernel
 
 /-- **Unguarded `is_converged` (today's code)**: resuming a DMRG run from a checkpoint with
 `sweeps > min_sweeps` raises (modelled as `none`) although the plain run is fine. -/
 theorem C18_resume_unguarded_counterexample :
     ∃ cfg j, SaveLast cfg ∧ cfg.carryErr = true ∧ cfg.guardEmpty = false ∧
       (snapshotAt cfg j).isSome = true ∧ (run cfg).isSome = true ∧ resumeFrom cfg j = none :=
-  ⟨{ cfgGS with guardEmpty := false }, 2, by decide⟩
+  ⟨{ cfgGS with guardEmpty := false }, 2, by decide +kernel⟩
+
+/-! ### convergence-controlled loops: no checkpoint measured twice, none skipped -/
+
+namespace TenpyModel.C18.Loop
+
+/-- bookkeeping invariant at the top of the sweep loop: the measurements made so far carry the loop-counter
+tags `0, 1, …` and the indices `0, 1, …` without gap or repetition; before the first iteration of a
+(re)started loop the measurement of the current counter value is already there. -/
+def Tagged (x : GS) : Prop :=
+  x.sim.meas.map (·.tag) = List.range (x.sim.st.steps + (if x.first then 1 else 0)) ∧
+  x.sim.meas.map (·.index) = List.range (x.sim.st.steps + (if x.first then 1 else 0))
+
+theorem measure_tagged (s : Sim) (n : Nat) (ht : s.meas.map (·.tag) = List.range n)
+    (hi : s.meas.map (·.index) = List.range n) (hn : s.st.steps = n) :
+    (measure s).meas.map (·.tag) = List.range (n + 1) ∧ (measure s).meas.map (·.index) = List.range (n + 1) := by
+  have hlen : s.meas.length = n := by
+    have := congrArg List.length ht
+    simpa using this
+  simp [measure, ht, hi, hn, hlen, List.range_succ]
+
+theorem emit_measure_save (cfg : Cfg) (hm : cfg.measureAtCheckpoints = true) (h : SaveLast cfg) (s : Sim) :
+    (emit cfg s).1 = measure s := by
+  have hc : callOrder cfg = [.measure, .save] := by
+    rcases callOrder_cases cfg h with h' | h'
+    · simp [callOrder, listeners, hm, sortByPrio, insertByPrio] at h'
+      split at h' <;> simp at h'
+    · exact h'
+  simp [emit, hc]
+
+theorem gsBody_tagged (cfg : Cfg) (hm : cfg.measureAtCheckpoints = true) (h : SaveLast cfg) (x : GS)
+    (hx : Tagged x) : Tagged (gsBody cfg x) ∧ (gsBody cfg x).first = false := by
+  refine ⟨?_, rfl⟩
+  obtain ⟨ht, hi⟩ := hx
+  cases hf : x.first with
+  | true =>
+    simp only [hf, if_true] at ht hi
+    simp [Tagged, gsBody, hf, iterate, ht, hi]
+  | false =>
+    simp only [hf, Bool.false_eq_true, if_false, Nat.add_zero] at ht hi
+    have := measure_tagged x.sim x.sim.st.steps ht hi rfl
+    simp only [Tagged, gsBody, hf, Bool.false_eq_true, if_false, emit_measure_save cfg hm h, iterate, Nat.add_zero]
+    simpa [measure] using this
+
+theorem gs_no_dup_no_skip (cfg : Cfg) (hm : cfg.measureAtCheckpoints = true) (hi : cfg.measureInitial = true)
+    (horder : SaveLast cfg) (hcarry : cfg.carryErr = true) (j : Nat) (sn : Snap) (s : Sim)
+    (hs : gsSnapshot cfg j = some sn) (hr : gsResume cfg sn = some s) :
+    s.meas.map (·.tag) = List.range (s.st.steps + 1) ∧ s.meas.map (·.index) = List.range (s.st.steps + 1) := by
+  -- the plain prefix up to checkpoint j satisfies the invariant
+  simp only [gsSnapshot] at hs
+  cases hy : loopG (gsStop cfg) (gsBody cfg) j (gsStart cfg) with
+  | none => simp [hy] at hs
+  | some y =>
+    simp only [hy] at hs
+    split at hs
+    next hcond =>
+      obtain ⟨hstop, hfirst, hsteps⟩ := hcond
+      have hstart : Tagged (gsStart cfg) := by
+        simp [Tagged, gsStart, hi, measure, init]
+      have hyT : Tagged y :=
+        loopG_inv (gsStop cfg) (gsBody cfg) Tagged (fun x hx => (gsBody_tagged cfg hm horder x hx).1) j _ y hstart hy
+      have hfin : y.sim.finished = false :=
+        loopG_inv (gsStop cfg) (gsBody cfg) (fun x => x.sim.finished = false)
+          (fun x hx => by rw [gs_body_finished]; exact hx) j _ y (gs_start_finished cfg) hy
+      rw [emit_snap cfg horder y.sim] at hs
+      simp only [Option.some.injEq] at hs
+      have hz : restore sn = measure y.sim := by
+        rw [← hs, restore_takeSnap cfg hcarry _ (by rw [emit_finished]; exact hfin), emit_measure_save cfg hm horder]
+      -- the resumed start state satisfies the invariant (first = true: checkpoint j is already measured)
+      have hx0 : Tagged ⟨true, 0, restore sn⟩ := by
+        obtain ⟨ht, hi'⟩ := hyT
+        simp only [hfirst, Bool.false_eq_true, if_false, Nat.add_zero] at ht hi'
+        have := measure_tagged y.sim y.sim.st.steps ht hi' rfl
+        simp only [Tagged, hz, if_true]
+        simpa [measure] using this
+      -- the resumed loop performs at least one iteration or raises
+      simp only [gsResume, gsFuel] at hr
+      cases hl : loopG (gsStop cfg) (gsBody cfg) (cfg.maxSweeps + 2) ⟨true, 0, restore sn⟩ with
+      | none => simp [hl] at hr
+      | some w =>
+        simp only [hl, Option.map_some, Option.some.injEq] at hr
+        have hw : Tagged w ∧ w.first = false := by
+          rw [show cfg.maxSweeps + 2 = (cfg.maxSweeps + 1) + 1 from rfl, loopG] at hl
+          cases hst : gsStop cfg ⟨true, 0, restore sn⟩ with
+          | none => simp [hst] at hl
+          | some t =>
+            cases t with
+            | true =>
+              -- impossible: j ≤ max_sweeps (the plain run did not stop at j)
+              exfalso
+              simp only [gsStop, hz] at hst hstop
+              simp only [measure] at hst
+              rw [hsteps] at hstop
+              by_cases h1 : cfg.maxSweeps < j
+              · simp only [h1, if_true] at hstop
+                cases hc : isConv cfg j y.since <;> simp [hc] at hstop
+              · simp only [hsteps, h1, if_false] at hst
+                by_cases h2 : cfg.minSweeps < j
+                · simp only [h2, if_true, isConv, if_true] at hst
+                  split at hst <;> simp at hst
+                · simp [h2] at hst
+            | false =>
+              simp only [hst] at hl
+              have hb := gsBody_tagged cfg hm horder _ hx0
+              exact loopG_inv (gsStop cfg) (gsBody cfg) (fun x => Tagged x ∧ x.first = false)
+                (fun x hx => gsBody_tagged cfg hm horder x hx.1) _ _ w hb hl
+        obtain ⟨⟨ht, hi'⟩, hwf⟩ := hw
+        simp only [hwf, Bool.false_eq_true, if_false, Nat.add_zero] at ht hi'
+        have := measure_tagged w.sim w.sim.st.steps ht hi' rfl
+        rw [← hr]
+        simpa [gsFinish, measure] using this
+    next => simp at hs
+
+end TenpyModel.C18.Loop
+
+/-- **No checkpoint is measured twice and none is skipped — for ANY stopping behaviour.**
+Ground-state search with measurements at the checkpoints, the convergence criterion `conv` arbitrary
+(so the resumed run may well do a different number of sweeps than the plain one — `sweep_stats` are
+not in `resume_data` by design): whenever the run resumed from the checkpoint after `j` sweeps finishes,
+its measurement list carries the sweep tags `0, 1, …, steps` and the indices `0, 1, …, steps`, each
+exactly once, in order (initial state, every checkpoint, final state). -/
+theorem C18_resume_no_dup_no_skip (cfg : Cfg) (hm : cfg.measureAtCheckpoints = true) (hi : cfg.measureInitial = true)
+    (horder : SaveLast cfg) (hcarry : cfg.carryErr = true) (j : Nat) (sn : Snap) (s : Sim)
+    (hs : gsSnapshot cfg j = some sn) (hr : gsResume cfg sn = some s) :
+    s.meas.map (·.tag) = List.range (s.st.steps + 1) ∧ s.meas.map (·.index) = List.range (s.st.steps + 1) :=
+  gs_no_dup_no_skip cfg hm hi horder hcarry j sn s hs hr
+
+/-- a convergence-controlled configuration: the criterion fires after 3 sweeps -/
+def cfgConv : Cfg := { cfgGS with minSweeps := 1, maxSweeps := 8, conv := fun s => decide (3 ≤ s) }
+
+-- non-vacuity: the plain run stops after 3 sweeps, the run resumed at checkpoint 2 needs 4 (its statistics
+-- restart), both have contiguous tags
+example : ((run cfgConv).map (fun s => s.meas.map (·.tag))) = some [0, 1, 2, 3] := by decide +kernel
+example : ((resumeFrom cfgConv 2).map (fun s => s.meas.map (·.tag))) = some [0, 1, 2, 3, 4] := by decide +kernel
